@@ -113,9 +113,31 @@ def sk_dead(sk):
 
 def check(ctx, clean, dirty, replay):
     sk = skeleton(dirty)
+    L = impl.lk()
+
+    def walk(s, seen):
+        if id(s) in seen:
+            return
+        seen[id(s)] = s
+        for st in s.structures:
+            if st.solver is not None:
+                walk(st.solver, seen)
     try:
         sol = hier.build(dirty)
+        # every solver of the hierarchy gets its own default wavelength (a value the user set): pruning must not lose it
+        allsol = {}
+        walk(sol, allsol)
+        for k, s in enumerate(allsol.values()):
+            s.set_param("wl", 1.0 + 0.01 * k)
+        defaults_before = {i: dict(s.default_params) for i, s in allsol.items()}
         ret = sol.prune()
+        left = {}
+        walk(sol, left)
+        for i, s in left.items():
+            if dict(s.default_params) != defaults_before[i]:
+                changed = sorted(set(defaults_before[i].items()) ^ set(s.default_params.items()), key=str)
+                ctx.violation("C19:defaults-changed", f"prune() changed the default parameters of a surviving solver: {changed[:4]}", replay)
+                return False
     except Exception as e:  # noqa
         ctx.violation(f"C19:prune-raised-{type(e).__name__}", f"prune() raised {type(e).__name__}: {str(e)[:70]}", replay)
         return False
